@@ -7,7 +7,11 @@ notes = sys.argv[7] if len(sys.argv) > 7 else ""
 dst = f"/verif/seeded/{sid}"
 os.makedirs(dst, exist_ok=True)
 for f in os.listdir(src):
-    shutil.copy(os.path.join(src, f), os.path.join(dst, f))
+    p = os.path.join(src, f)
+    if os.path.isdir(p):
+        shutil.copytree(p, os.path.join(dst, f), dirs_exist_ok=True)
+    else:
+        shutil.copy(p, os.path.join(dst, f))
 meta = {
     "id": sid, "breaks_property": prop, "origin": "independent sub-agent given only the property text and a scratch worktree",
     "needs_to_manifest": needs, "demo_target_dir": tgt,
